@@ -139,7 +139,10 @@ type op struct {
 
 // history: how the chain value that runs the finisher came about.
 type history struct {
-	Handle      string // "" | "transaction" (db.Transaction(func)) | "begin-commit"
+	Handle string // "" | "transaction" (db.Transaction(func)) | "begin-commit"
+	// SharedSel: Select/Omit are applied first and frozen in a Session handle; a write for ANOTHER model type
+	// (same Go field names, other columns) runs on that handle before the operation does
+	SharedSel   bool
 	Decoy       bool   // the chain derives from a Session parent on which other chains were built and finished first
 	Context     bool   // WithContext
 	Scopes      bool   // the condition is applied through Scopes(func)
@@ -157,7 +160,7 @@ func (h history) String() string {
 	for _, x := range []struct {
 		on   bool
 		name string
-	}{{h.Decoy, "session-parent+decoys"}, {h.Context, "with-context"}, {h.Scopes, "cond-via-scopes"}, {h.SkipHooks, "Session{SkipHooks}"}, {h.Returning, "Returning{}"}, {h.SelectSlice, "select-slice"}, {h.OmitSep != "", fmt.Sprintf("omit-comma-string%q", h.OmitSep)}} {
+	}{{h.SharedSel, "shared-select-handle"}, {h.Decoy, "session-parent+decoys"}, {h.Context, "with-context"}, {h.Scopes, "cond-via-scopes"}, {h.SkipHooks, "Session{SkipHooks}"}, {h.Returning, "Returning{}"}, {h.SelectSlice, "select-slice"}, {h.OmitSep != "", fmt.Sprintf("omit-comma-string%q", h.OmitSep)}} {
 		if x.on {
 			parts = append(parts, x.name)
 		}
